@@ -22,7 +22,7 @@ const eps = 2.220446049250313e-16
 
 func Run(m *mon.M) {
 	m.Rule = "edges 1e-6 rad .. 179 degrees (geodesic) and planar edges spanning up to half the wrap distance, PlateCarree and Mercator projections at scales 1e-3 .. 1e6 (incl. 180 and pi), tolerances 1e-13 .. 1 rad (bounded below by length^2/1e8 so that a chain has at most ~10^4 vertices), equator and antimeridian crossings, poles (PlateCarree) / up to 89.5 degrees (Mercator); polylines of 2..3000 vertices: random walks, noisy straight tracks, out-and-back tracks retreating in steps below the tolerance, zigzags, duplicates, edges beyond 90 degrees; snap levels 0..30 and exponents 0..10 on uniform points, cell corners, grid half-way points and poles. A case is non-trivial and distinct when new AND (the chain has more than 2 vertices, or the polyline drops a vertex, or the point is not already a grid site)"
-	m.Assumptions = []string{"distance of a sampled point of the output chain to a geodesic input edge: library DistanceFromSegment (monitored by C17), every excess re-measured with the 320-bit reference before it is reported", "distance to a projected (curved) input edge: minimum over the edge parameter found by bracketing + golden-section search; any parameter gives an upper bound on the true distance, an excess is re-measured with a 4000-point global scan + refinement before it is reported", "rounding allowances: 1e-6 relative + 2e-15 rad absolute on every tolerance comparison; projection round trip 1e-14 rad (PlateCarree) and 1e-14 + 64 eps/cos(lat) (Mercator, whose inverse is ill-conditioned towards the poles)"}
+	m.Assumptions = []string{"distance of a sampled point of the output chain to a geodesic input edge: library DistanceFromSegment (monitored by C17), every excess re-measured with the 320-bit reference before it is reported", "distance to a projected (curved) input edge: minimum over the edge parameter found by bracketing + golden-section search; any parameter gives an upper bound on the true distance, an excess is re-measured with a 4000-point global scan + refinement before it is reported", "rounding allowances: 1e-6 relative + 2e-15 rad absolute on every tolerance comparison, plus 32 eps/cos(lat) for Mercator chains (conditioning of its inverse); projection round trip 1e-14 rad (PlateCarree) and 1e-14 + 64 eps/cos(lat) (Mercator, whose inverse is ill-conditioned towards the poles)"}
 	m.Require("tess.projected.chains", 3000)
 	m.Require("tess.unprojected.chains", 3000)
 	m.Require("tess.points_measured", 200000)
@@ -75,6 +75,15 @@ func bucket(ratio float64) string {
 }
 
 func allow(tol float64) float64 { return tol*(1+1e-6) + 2e-15 }
+
+// mercSlack: the inverse Mercator projection is ill-conditioned towards the poles (an ulp of the planar y
+// moves the point by eps/cos(lat)), so both the chain and the reference curve carry that much noise.
+func mercSlack(pj projT, x s2.Point) float64 {
+	if !pj.merc {
+		return 0
+	}
+	return 32 * eps / math.Max(math.Cos(lat(x)), 1e-6)
+}
 
 func randTol(r *rand.Rand, length float64) float64 {
 	lo := math.Max(1e-13, length*length/1e8)
@@ -173,8 +182,8 @@ func projectedCase(c *mon.Case) {
 			d := s2.DistanceFromSegment(x, a, b).Radians()
 			c.Count("tess.points_measured", 1)
 			c.Max("tess.projected.error_over_tolerance."+pj.name, d/tol)
-			if d > allow(tol) {
-				if d = distRef(x, a, b); d > allow(tol) {
+			if d > allow(tol)+mercSlack(pj, x) {
+				if d = distRef(x, a, b); d > allow(tol)+mercSlack(pj, x) {
 					c.Violation("AppendProjected/"+pj.name+"/exceeds-tolerance/"+bucket(d/tol), fmt.Sprintf("a point of the projected chain (segment %d, fraction %.4f) is %.6g rad from the geodesic edge AB: %.4f x the tolerance %.6g", i, t, d, d/tol, tol), det(map[string]any{"segment": i, "fraction": t, "distance": d}))
 					return
 				}
@@ -351,11 +360,11 @@ func unprojectedCase(c *mon.Case) {
 			s0 = math.Max(0, math.Min(1, s0))
 			w := 0.02
 			d, _ := curveDist(pj, pa, pb, x, math.Max(0, s0-w), math.Min(1, s0+w))
-			if d > allow(tol) {
+			if d > allow(tol)+mercSlack(pj, x) {
 				d = math.Min(d, curveDistGlobal(pj, pa, pb, x))
 			}
-			c.Max("tess.unprojected.error_over_tolerance."+pj.name, d/tol)
-			if d > allow(tol) {
+			c.Max("tess.unprojected.error_over_tolerance."+pj.name, (d-mercSlack(pj, x))/tol)
+			if d > allow(tol)+mercSlack(pj, x) {
 				c.Violation("AppendUnprojected/"+pj.name+"/exceeds-tolerance/"+bucket(d/tol), fmt.Sprintf("a point of the geodesic chain (segment %d, fraction %.4f) is %.6g rad from the projected input edge: %.4f x the tolerance %.6g", i, t, d, d/tol, tol), det(map[string]any{"segment": i, "fraction": t, "distance": d}))
 				return
 			}
